@@ -6,15 +6,21 @@
 
 namespace util {
 
+// The converter in float_to_string.cc uses decimal notation for exponents in
+// [-6, 21) and exponential notation otherwise, like ECMAScript.
 template <> struct ToStringBuf<double> {
-  // DoubleToStringConverter::kBase10MaximalLength + 1 for null paranoia.
-  static const unsigned kBytes = 19;
+  // Longest shortest-representation: 17 digits, sign, "0." and five padding
+  // zeros, e.g. -0.0000012345678901234567 or -1.2345678901234567e-300 (this is
+  // DoubleToStringConverter::kMaxCharsEcmaScriptShortest = 25) + 1 for the
+  // null written by StringBuilder.
+  static const unsigned kBytes = 26;
 };
 
-// Single wasn't documented in double conversion, so be conservative and
-// say the same as double.
 template <> struct ToStringBuf<float> {
-  static const unsigned kBytes = 19;
+  // Longest shortest-representation: sign and 21 digits before the point,
+  // e.g. -100000000000000000000 for -1e20f, + 1 for the null written by
+  // StringBuilder.
+  static const unsigned kBytes = 23;
 };
 
 char *ToString(double value, char *to);
